@@ -41,7 +41,8 @@ PureCalls ==
   \cup {<<"net_step_fail", "np">>}
 HistCalls ==
   {<<"net_step", "sx", "P1", "O0", "">>, <<"compile", "sx">>, <<"add_later", "D1">>, <<"add_later", "R2">>,
-   <<"init_all", "">>, <<"init", "D1", "">>, <<"net_step_fail", "">>, <<"step", "L2", "", "P1", "O0">>}
+   <<"init_all", "">>, <<"init", "D1", "">>, <<"net_step_fail", "">>, <<"step", "L2", "", "P1", "O0">>,
+   <<"step", "L1", "", "P2", "O0">>}
 Calls == CASE Profile = "ready" -> ReadyCalls [] Profile = "engine" -> EngineCalls [] Profile = "pure" -> PureCalls
            [] Profile = "hist" -> HistCalls
 
